@@ -46,7 +46,6 @@ pub fn run(ctx: &Ctx, st: &mut Stats, tick: &mut dyn FnMut(&str)) {
             let d = ps - r;
             let want_prec = (ta.0 + tb.0 + 1).min(38);
             // 10^d must be representable in the 256-bit intermediate for the documented rounding to be meaningful
-            let cls = if d > 76 { ":divisor-beyond-i256" } else { "" };
             for &a in &va {
                 for &b in &vb {
                     st.add(sub, 1, (a != 0 && b != 0) as u64);
@@ -99,7 +98,7 @@ pub fn run(ctx: &Ctx, st: &mut Stats, tick: &mut dyn FnMut(&str)) {
                         None => fits.len() < cands.len(),
                     };
                     if !okc {
-                        st.violate(idx, format!("c12:fixed-point:multiply_fixed_point_checked{cls}"), format!("multiply_fixed_point_checked({ldt} {a}, {rdt} {b}, required scale {r}) = {:?}; exact product {p}, nearest multiples at scale {r}: {cands:?}, documented type Decimal128({want_prec}, {r})", gc.as_ref().map(|x| (x.value(0), x.data_type().clone())).map_err(|e| e.to_string())), case);
+                        st.violate(idx, if d > 76 { "c12:fixed-point:divisor-power-of-ten-wraps-i256".to_string() } else { "c12:fixed-point:multiply_fixed_point_checked".to_string() }, format!("multiply_fixed_point_checked({ldt} {a}, {rdt} {b}, required scale {r}) = {:?}; exact product {p}, nearest multiples at scale {r}: {cands:?}, documented type Decimal128({want_prec}, {r})", gc.as_ref().map(|x| (x.value(0), x.data_type().clone())).map_err(|e| e.to_string())), case);
                     }
                     // unchecked: wraps
                     let wraps: Vec<i128> = cands.iter().map(i128::wrap_big).collect();
@@ -108,7 +107,7 @@ pub fn run(ctx: &Ctx, st: &mut Stats, tick: &mut dyn FnMut(&str)) {
                         _ => false,
                     };
                     if !oku {
-                        st.violate(idx, format!("c12:fixed-point:multiply_fixed_point{cls}"), format!("multiply_fixed_point({ldt} {a}, {rdt} {b}, required scale {r}) = {:?}; exact product {p}, nearest multiples {cands:?} (mod 2^128: {wraps:?})", gu.as_ref().map(|x| (x.value(0), x.data_type().clone())).map_err(|e| e.to_string())), case);
+                        st.violate(idx, if d > 76 { "c12:fixed-point:divisor-power-of-ten-wraps-i256".to_string() } else { "c12:fixed-point:multiply_fixed_point".to_string() }, format!("multiply_fixed_point({ldt} {a}, {rdt} {b}, required scale {r}) = {:?}; exact product {p}, nearest multiples {cands:?} (mod 2^128: {wraps:?})", gu.as_ref().map(|x| (x.value(0), x.data_type().clone())).map_err(|e| e.to_string())), case);
                     }
                     // dyn form = unchecked form
                     let same_dyn = match (&gd, &gu) {
